@@ -38,10 +38,12 @@ TEMPLATES = {
     '(SandS)ornotS': '(rule:s0 and rule:s1) or not rule:s2',
     'not(not(S))andS': 'not (not (rule:s0)) and rule:s1',
     'leaf': 'role:x',
+    'XorS': 'role:x or rule:s0',
+    'XandS': 'role:x and rule:s0',
 }
 NSLOTS = {'S': 1, 'notS': 1, 'SandS': 2, 'SorS': 2, 'not(SorS)': 2,
           'Sand(notS)': 2, 'Sor(SandnotS)': 3, '(SandS)ornotS': 3,
-          'not(not(S))andS': 2, 'leaf': 0}
+          'not(not(S))andS': 2, 'leaf': 0, 'XorS': 1, 'XandS': 1}
 
 
 def setup():
@@ -174,7 +176,7 @@ def _problem(templates, slot, defined, universe):
     return z3.Or(undefined, cyclic)
 
 
-def run_recheck(ctx, templates, how):
+def run_recheck(ctx, templates, how, rebind=(0,)):
     """Validation of a long-lived enforcer: the rule set is validated,
     changed in place (late registration of a default followed by a load,
     item assignment, dict.update, set_rules without overwrite), and
@@ -223,6 +225,27 @@ def run_recheck(ctx, templates, how):
                     detail=lambda m: det(m, check_rules=got))
         ctx.require(raised == (not got), 'recheck:%s-raise_on_violation'
                     % label, detail=lambda m: det(m, check_rules=got))
+        if got:
+            # reported clean: every rule is evaluated (the next validation
+            # happens on an enforcer that has already evaluated things)
+            ctx.assume(mkbool(z3.Not(problem)))
+            creds = {'roles': ctx.roles('role.' + label, ['x'])}
+            old = sys.getrecursionlimit()
+            sys.setrecursionlimit(max(600, old // 2) if old > 1200 else old)
+            try:
+                # evaluated on the main path (not summarised): whatever
+                # the code under test remembers from this evaluation is
+                # exactly what one run with these credentials leaves behind
+                for n in sorted(enf.rules):
+                    try:
+                        bool(enf.enforce(n, {}, creds))
+                    except Exception as exc:
+                        ctx.require(
+                            False, 'recheck:%s-evaluation-of-clean-graph-'
+                            'raises' % label, detail=lambda m, n=n, e=repr(
+                                exc)[:200]: det(m, name=n, exception=e))
+            finally:
+                sys.setrecursionlimit(old)
         return got
     env = None
     try:
@@ -251,20 +274,23 @@ def run_recheck(ctx, templates, how):
             rules[names[i]] = body(i, 1, slot1)
         enf = common.mk_enforcer(rules=policy.Rules(rules))
         verdict(enf, 'first', _problem(templates, slot1, range(k), universe))
-        # rebind the first name; the others keep their bodies
-        new0 = body(0, 2, slot2)
+        # rebind some names (cube parameter); the others keep their bodies
+        rebind = list(rebind)
+        new = {names[i]: body(i, 2, slot2) for i in rebind}
         for key, c in slot1.items():
-            if key[0] != 0:
+            if key[0] not in rebind:
                 slot2[key] = c
         if how == 'item':
-            enf.rules[names[0]] = new0
+            for nm, b in new.items():
+                enf.rules[nm] = b
         elif how == 'update':
-            enf.rules.update({names[0]: new0})
+            enf.rules.update(new)
         elif how == 'set_rules-no-overwrite':
-            enf.set_rules({names[0]: new0}, overwrite=False)
+            enf.set_rules(new, overwrite=False)
         else:
-            del enf.rules[names[0]]
-            enf.rules.setdefault(names[0], new0)
+            for nm, b in new.items():
+                del enf.rules[nm]
+                enf.rules.setdefault(nm, b)
         verdict(enf, 'second', _problem(templates, slot2, range(k),
                                         universe))
         ctx.cover('recheck:in-place')
@@ -286,6 +312,17 @@ def cubes_recheck(tier, seed):
                 if how != 'late-default' and NSLOTS[a] == 0:
                     continue
                 out.append({'templates': [a, b], 'how': how})
+    # three names, two of them rebound at once: references evaluated before
+    # the change next to references that an and/or had skipped
+    trip = [['S', 'XorS', 'S'], ['S', 'XandS', 'S'], ['XorS', 'S', 'notS'],
+            ['S', 'S', 'XorS']]
+    if tier != 'quick':
+        trip += [['XorS', 'XorS', 'S'], ['XandS', 'XorS', 'XandS'],
+                 ['notS', 'XorS', 'XandS'], ['SorS', 'XorS', 'S']]
+    for t in trip:
+        for rb in ([1, 2], [0, 2]):
+            for how in ('set_rules-no-overwrite', 'item'):
+                out.append({'templates': t, 'how': how, 'rebind': rb})
     return out
 
 
